@@ -645,12 +645,13 @@ PLANS["C18"] = dict(
           "state-sharing operations (signal thread: store flag s1, take waker s2, wake s3; poll: [poll accept + read flag] p12, publish waker p3) in all C(5,2)=10 orders, each with the signal "
           "arriving at the 1st poll, after one accepted connection and after two (30 schedules, enumerated completely); turns are forced through the H4 scheduling points, the realised order is "
           "read back from the log; (b) in-flight sessions: 0-6 connections whose handlers block on gates opened in a scripted order, idle keep-alive connections, connections arriving after the "
-          "interrupt, a handler that panics. Oracle over the event log (one sequence counter): progress in logical steps (handler finished and (poll returned Ready(None) or a wake of the task "
+          "interrupt handler finished while the woken poll of the accept loop is held at its first scheduling point (so that accept is ready at the very poll that has to notice the interrupt: a "
+          "forced schedule), a handler that panics. Oracle over the event log (one sequence counter): progress in logical steps (handler finished and (poll returned Ready(None) or a wake of the task "
           "since its poll began), else lost wake-up), howl returns, and it returns after every handler_end of a session accepted before; nothing is served after the interrupt. "
           "distinct_nontrivial = distinct realised operation orders + distinct session completion orders."),
     quick=[R("c18", "rel", 18, shards=16)],
     thorough=[R("c18", "rel", 400, shards=16, flags={"repeats": 20}), R("c18", "tsan", 40, shards=16, flags={"repeats": 2}), R("c18", "dbg", 40, shards=16)],
-    floors={"quick": {"evaluations": 40, "distinct": 12, "interleaving_runs": 30, "interleavings_returned": 30, "session_scenarios_ok": 12},
+    floors={"quick": {"evaluations": 40, "distinct": 12, "interleaving_runs": 30, "interleavings_returned": 30, "session_scenarios_ok": 12, "late_arrival_forced_at_the_interrupted_poll": 3},
             "thorough": {"evaluations": 1_000, "interleaving_runs": 600}},
     wall_limit={"quick": 600, "thorough": 3600},
     assumptions=["'always eventually' is restated as bounded progress: no lost wake-up state + return observed within 8 s after the race (10 s after the last session), and a scenario that misses that is re-run alone with 100 s of patience before it counts; a child that exceeds its watchdog (40 s / 160 s) is inconclusive",
